@@ -2117,7 +2117,11 @@ class TagNode(_ElementWrappingNode, NodeBase):
 
             if len(candidates) == 0:
                 node_test = step.node_test
-                assert isinstance(node, TagNode)
+                if not isinstance(node, TagNode):
+                    raise InvalidOperation(
+                        "The expression doesn't match the root node and a tree can "
+                        "have only one."
+                    )
                 assert isinstance(node_test, NameMatchTest)
 
                 new_node = new_tag_node(
